@@ -41,6 +41,8 @@ INV_STMT = ["DepthAgrees", "AcceptBalanced", "CountsSane", "ErrSticky"]
 INV_PUML = ["AcceptBalanced", "StateAgrees", "FoldAgrees", "ErrSticky"]
 # deviation clause -> invariant of MC_Dot it must break (non-vacuity, rule 6)
 DEV_BREAKS = {"NameNotEscaped": "EscapeSuffices", "MixedPrimitiveNotEscaped": "EscapeSuffices"}
+# deviation clauses about which classes a meta-model export shows (DotExport!Drawn)
+DRAW_DEVS = {"TransitiveImportsNotDrawn"}
 
 
 # ------------------------------------------------------------------ TLC: traces and oracle
@@ -138,13 +140,28 @@ def dot_verdicts(paths):
 
 
 # ------------------------------------------------------------------ the corpus
-def load_mm(kind, path):
+def load_mm(kind, gdir):
+    """Write the grammar file(s) of a corpus grammar into gdir and load the main one."""
     from textx import metamodel_from_file
-    mm = metamodel_from_file(drv.write(path, drv.GRAMMARS[kind]))
+    files = drv.grammar_files(kind)
+    for name, text in files.items():
+        drv.write(os.path.join(gdir, name), text)
+    kw = {}
+    if kind in drv.USER_CLASSES:
+        kw["classes"] = drv.USER_CLASSES[kind]
+    mm = metamodel_from_file(os.path.join(gdir, next(iter(files))), **kw)
     if kind == "repo":       # multi-file models: the export draws one cluster per file
         import textx.scoping.providers as sp
         mm.register_scope_providers({"*.*": sp.PlainNameImportURI()})
     return mm
+
+
+def drawn_classes(files_by_kind, dev):
+    """DotExport!Drawn for every corpus grammar: {kind: set of class names a meta-model export must show}."""
+    cases = [dict(id=k, files=[dict(ns=f["ns"], imports=f["imports"], classes=f["classes"], subs=f["subs"]) for f in fs])
+             for k, fs in files_by_kind.items()]
+    res, st = tlc.oracle("MC_Dot", cases, cfg="MC_Dot_Draw.cfg", env=dict(VT_DEV=dev, VT_MAXLEN="1"))
+    return {k: dict(drawn=set(r["drawn"]), crash=bool(r["crash"])) for k, r in res.items()}, st
 
 
 class Corpus:
@@ -154,21 +171,27 @@ class Corpus:
         self.models = []          # dict(id, kind, model, text)
         self.skipped = 0
         for kind, g in drv.GRAMMARS.items():
-            self.mms[kind] = load_mm(kind, os.path.join(root, "g", f"{kind}.tx"))
+            self.mms[kind] = load_mm(kind, os.path.join(root, "g", kind))
         plan = []
         for kind in drv.GRAMMARS:
             k = n_models if kind in ("shapes", "unicode", "noname") else max(3, n_models // 3)
+            if kind in ("repo", "user"):
+                k = max(6, n_models // 2)
             plan += [(kind, j, True) for j in range(k)] + [(kind, k, False)]
         for kind, j, special in plan:
             text = drv.model_text(kind, rng, special)
             lib = None
-            if kind == "repo":
+            path = os.path.join(root, "m", f"{kind}_{j}.{kind}")
+            if kind == "repo" and j % 3 != 1:      # (every third model of this language imports nothing)
                 lib = drv.model_text(kind, rng, special)
                 drv.write(os.path.join(root, "m", f"{kind}_{j}_lib.{kind}"), lib)
                 text = f'import "{kind}_{j}_lib.{kind}"\n' + text
-            path = drv.write(os.path.join(root, "m", f"{kind}_{j}.{kind}"), text)
             try:
-                model = self.mms[kind].model_from_file(path)
+                if kind == "repo" and j % 6 == 4:  # ... and some are loaded from a string
+                    path = None
+                    model = self.mms[kind].model_from_str(text)
+                else:
+                    model = self.mms[kind].model_from_file(drv.write(path, text))
             except Exception:
                 self.skipped += 1      # the generated text is not a model of the carrier language
                 continue
@@ -194,7 +217,7 @@ def export_all(corpus, rng, quick):
         table[key] = d
 
     for kind, mm in corpus.mms.items():
-        cnt = drv.mm_counts(mm)
+        cnt = corpus.counts[kind]
         p = os.path.join(root, "out", f"mm_{kind}.dot")
         run(dots, f"mm:{kind}", p, "metamodel_export", lambda: metamodel_export(mm, p), kind=kind, counts=cnt)
         p2 = os.path.join(root, "out", f"mm_{kind}.pu")
@@ -213,7 +236,7 @@ def export_all(corpus, rng, quick):
     for m in corpus.models:
         p = os.path.join(root, "out", f"m_{m['id']}.dot")
         run(dots, f"m:{m['id']}", p, "model_export", lambda: model_export(m["model"], p), kind=m["kind"], model=m)
-        if rng.random() < (0.25 if quick else 0.5):
+        if m["path"] is not None and rng.random() < (0.25 if quick else 0.5):
             gd = os.path.join(root, "gen", "models")
             os.makedirs(gd, exist_ok=True)
             run(dots, f"gm:{m['id']}", os.path.join(gd, f"{m['id']}.dot"), "generator any->dot",
@@ -222,7 +245,7 @@ def export_all(corpus, rng, quick):
     return dots, pumls
 
 
-def expected_dot(d):
+def expected_dot(d, dev=None):
     """Counts a well-formed export of this model / meta-model must have (projection of the model side).
     ids: distinct identifiers of node statements; extra: optional further nodes (the built-in OBJECT class);
     plain: nodes without a record label (the table of match rules)."""
@@ -231,7 +254,8 @@ def expected_dot(d):
         return dict(ids=n, extra=0, plain=0, exact=True)
     c = d["counts"]
     plain = 1 if c["match"] else 0
-    return dict(ids=len(c["classes"]) + plain, extra=1 if c["has_object"] else 0, plain=plain, exact=False)
+    drawn = c["drawn"] if dev is None else c["drawn_dev"][dev]
+    return dict(ids=len(drawn) + plain, extra=1 if c["has_object"] else 0, plain=plain, exact=False)
 
 
 def dot_ok(res, exp):
@@ -288,15 +312,19 @@ def run(rep):
     quick = rep.tier == "quick"
     rng = random.Random(rep.seed)
     rep.rule = ("Every output of metamodel_export (DOT and PlantUML renderer, with and without linetype), model_export "
-                "and the three registered generators over a corpus of 8 carrier grammars (abstract / match / common "
+                "and the three registered generators over a corpus of 12 carrier grammars (abstract / match / common "
                 "rules, attributes of every multiplicity, references, OBJECT-typed attributes, match rules with & < > and "
-                "quotes in regexes and literals, unicode rule names, multi-file models) and seeded-random models whose "
+                "quotes in regexes and literals, unicode rule names, multi-file models with and without imports, loaded from "
+                "files and from strings, user classes with value-based equality and an unhashable one, grammars of several "
+                "files with the same rule names in several files and with grammars imported only by imported grammars) and seeded-random models whose "
                 "names and string values range over quote, backslash, braces, pipe, angle brackets, newline, '?', "
                 "unicode and strings longer than the 20-character cut of dot_repr, with lists mixing objects and "
                 "primitive values. Each output is a TLC trace of DotLex / Puml; counts of an accepted text are compared "
                 "with the classes / objects. Non-trivial: outputs of models with >= 2 objects or a special character, "
                 "and every meta-model output; distinct by (exporter, grammar, model text).")
     rep.assumptions = [
+        "which classes a meta-model export must show is DotExport!Drawn evaluated by TLC on the projection of the "
+        "meta-model (classes per grammar file from mm.namespaces, import structure of the corpus grammar)",
         "of the XML inside HTML-like labels the module checks closed tags and well-formed entities; the rest is "
         "decided by Graphviz: an output that `dot -Tcanon` rejects is a VIOLATION even if DotLex accepts it",
         "the built-in OBJECT class may be shown (also repeatedly) when an attribute has that type; classes may be "
@@ -333,6 +361,24 @@ def run(rep):
                 [(f"r{k}", "repr", dot_repr(s)) for k, s in enumerate(strs)]
         # ---------------- corpus, exports; the three TLC batches are independent and run side by side
         corpus = Corpus(root, rng, int(os.environ.get("VT_C29_MODELS", 14 if quick else 70)))   # env: development aid
+        corpus.counts = {k: drv.mm_counts(mm, k) for k, mm in corpus.mms.items()}
+        files_by_kind = {k: c["files"] for k, c in corpus.counts.items()}
+        drawn, st = drawn_classes(files_by_kind, "")
+        rep.add_oracle("MC_Dot_Draw", st)
+        for k, c in corpus.counts.items():
+            if drawn[k]["crash"]:
+                raise tlc.MachineryError("DotExport!Crashes holds without a deviation clause")
+            c["drawn"], c["drawn_dev"], c["crash_dev"] = drawn[k]["drawn"], {}, {}
+        for fid, dev in devs.items():
+            if dev not in DRAW_DEVS:
+                continue
+            alt, st = drawn_classes(files_by_kind, dev)
+            rep.add_oracle(f"MC_Dot_Draw[Dev={dev}]", st)
+            for k, c in corpus.counts.items():
+                if alt[k]["crash"]:
+                    c["crash_dev"][fid] = alt[k]["drawn"]
+                elif alt[k]["drawn"] != c["drawn"]:
+                    c["drawn_dev"][fid] = alt[k]["drawn"]
         dots, pumls = export_all(corpus, rng, quick)
         with ThreadPoolExecutor(max_workers=3) as ex:
             f1 = ex.submit(predict, cases, "")
@@ -352,7 +398,11 @@ def run(rep):
                                     f"(record label / quoting broken)")
         # ---------------- crashed exports
         for d in list(dots.values()) + list(pumls.values()):
-            if "crash" in d:
+            if "crash" in d and "counts" in d and d["crash"].startswith("KeyError") and any(
+                    any(repr(x) in d["crash"] for x in d["counts"]["drawn"] - dr) for dr in d["counts"]["crash_dev"].values()):
+                # the listed clause predicts the failure: a subclass that is not among the shown classes
+                rep.known_finding(next(iter(d["counts"]["crash_dev"])), dict(export=d["what"], grammar=d["kind"]))
+            elif "crash" in d:
                 rep.violation(_replay_case(d), f"{d['what']} of {'a model of ' if 'model' in d else ''}grammar {d['kind']} "
                                                f"raised {d['crash']}")
         dots = {i: d for i, d in dots.items() if "text" in d}
@@ -385,16 +435,20 @@ def run(rep):
         # ---------------- verdicts: PlantUML
         for i, d in pumls.items():
             r, c = pres[i], d["counts"]
-            names = sorted({"".join(chr(x) for x in n) for n in r["names"]})
-            case = dict(export=d["what"], grammar=d["kind"], classes=c["classes"])
-            allowed = set(c["classes"]) | ({"OBJECT"} if c["has_object"] else set())
-            if r["accept"] and set(c["classes"]) <= set(names) <= allowed:
+            names = {"".join(chr(x) for x in n) for n in r["names"]}
+            case = dict(export=d["what"], grammar=d["kind"], classes=sorted(c["drawn"]))
+            extra = {"OBJECT"} if c["has_object"] else set()
+            if r["accept"] and c["drawn"] <= names <= c["drawn"] | extra:
                 rep.passed(case, nontrivial=True)
+                continue
+            fid = next((f for f, dr in c["drawn_dev"].items() if r["accept"] and dr <= names <= dr | extra), None)
+            if fid:
+                rep.known_finding(fid, case)
             else:
-                rep.violation(dict(kind="puml", grammar=d["kind"], what=d["what"], text=d["text"], expected=c["classes"]),
+                rep.violation(dict(kind="puml", grammar=d["kind"], what=d["what"], text=d["text"], expected=sorted(c["drawn"])),
                               f"{d['what']} of grammar {d['kind']}: " +
                               (f"rejected by Puml: {r['err']} at line {r['at']}" if not r["accept"] else
-                               f"declares {names} but the meta-model has {c['classes']}"))
+                               f"declares {sorted(names)} but the meta-model has {sorted(c['drawn'])}"))
         # ---------------- verdicts: DOT
         failing = []
         for i, d in dots.items():
@@ -407,6 +461,9 @@ def run(rep):
                 rep.passed(_brief(d, exp), nontrivial=big)
             elif "model" in d:
                 failing.append(i)
+            elif any(dot_ok(dres[i], expected_dot(d, f)) for f in d["counts"]["drawn_dev"]):
+                rep.known_finding(next(f for f in d["counts"]["drawn_dev"] if dot_ok(dres[i], expected_dot(d, f))),
+                                  _brief(d, exp))
             else:
                 rep.violation(_replay_case(d), f"{d['what']} of grammar {d['kind']}: {describe(dres[i], exp)}")
         explain_failing(rep, root, dots, dres, failing, devs)
@@ -439,6 +496,7 @@ def _replay_case(d):
 def explain_failing(rep, root, dots, dres, failing, devs):
     """Rejected / miscounted model exports: known finding iff a listed clause predicts it and neutralising
     exactly the predicted fields repairs the export."""
+    devs = {f: d for f, d in devs.items() if d in DEV_BREAKS}
     if not failing:
         return
     fields = {i: drv.model_fields(dots[i]["model"]["model"]) for i in failing}
@@ -494,8 +552,15 @@ def explain_failing(rep, root, dots, dres, failing, devs):
 
 
 def selftest():
-    """Non-vacuity: with a deviation clause switched on TLC must report EscapeSuffices violated."""
+    """Non-vacuity: with a deviation clause switched on TLC must report EscapeSuffices violated, and
+    DotExport!Drawn must lose classes / predict the failure."""
     bad = 0
+    files = [dict(ns="a", imports=[2], classes=["a.A"], subs=[]), dict(ns="b", imports=[3], classes=["b.B"], subs=[["b.B", "c.C"]]),
+             dict(ns="c", imports=[], classes=["c.C"], subs=[])]
+    doc = drawn_classes({"x": files}, "")[0]["x"]
+    dev = drawn_classes({"x": files}, "TransitiveImportsNotDrawn")[0]["x"]
+    print("Drawn, Dev={}:", sorted(doc["drawn"]), doc["crash"], " Dev={TransitiveImportsNotDrawn}:", sorted(dev["drawn"]), dev["crash"])
+    bad += not (doc["drawn"] == {"a.A", "b.B", "c.C"} and not doc["crash"] and dev["drawn"] == {"a.A", "b.B"} and dev["crash"])
     for dev, inv in DEV_BREAKS.items():
         r = tlc.model_check("MC_Dot", cfg="MC_Dot_Field.cfg", env=dict(VT_DEV=dev, VT_MAXLEN="3", VT_CASES=""), workers=1)
         print(f"Dev={{{dev}}}: TLC reports {r.violated or r.error or 'no violation'} -> {'ok' if r.violated == inv else 'UNEXPECTED'}")
@@ -519,8 +584,10 @@ def replay(path):
             got, _ = predict([("x", "escaped" if fn == "dot_escape" else "repr", e)], "")
             print(f"{fn}({s!r}) = {e!r}: {got['x']}")
             return 0 if got["x"] == "wellformed" else 1
-        mm = load_mm(case["grammar"], os.path.join(root, "g.tx"))
-        cnt = drv.mm_counts(mm)
+        mm = load_mm(case["grammar"], os.path.join(root, "g"))
+        cnt = drv.mm_counts(mm, case["grammar"])
+        cnt["drawn"] = drawn_classes({case["grammar"]: cnt["files"]}, "")[0][case["grammar"]]["drawn"]
+        cnt["drawn_dev"] = {}
         out = os.path.join(root, "out.txt")
         try:
             if case["kind"] == "puml":
@@ -542,9 +609,9 @@ def replay(path):
             r = res["x"]
             names = sorted({"".join(chr(x) for x in n) for n in r["names"]})
             print(drv.read(out))
-            print("Puml:", r["accept"], r["err"], "declared", names, "expected", cnt["classes"])
-            allowed = set(cnt["classes"]) | ({"OBJECT"} if cnt["has_object"] else set())
-            return 0 if r["accept"] and set(cnt["classes"]) <= set(names) <= allowed else 1
+            print("Puml:", r["accept"], r["err"], "declared", names, "expected", sorted(cnt["drawn"]))
+            allowed = cnt["drawn"] | ({"OBJECT"} if cnt["has_object"] else set())
+            return 0 if r["accept"] and cnt["drawn"] <= set(names) <= allowed else 1
         text = drv.read(out)
         res, _ = dot_traces({"x": text})
         exp = expected_dot(d)
